@@ -26,6 +26,15 @@ func (s strFlag) Set(string) error { return nil }
 
 var _ flag.Value = strFlag("")
 
+// mutFlag is a flag.Value with identity: the same pointer is used for every FromFlag call of the process and re-set
+// before each call, as a real command-line flag object would be (a result must not depend on earlier values).
+type mutFlag struct{ s string }
+
+func (m *mutFlag) String() string     { return m.s }
+func (m *mutFlag) Set(v string) error { m.s = v; return nil }
+
+var sharedFlag = &mutFlag{}
+
 // ---------- independent prefix recogniser ----------
 
 func hasPrefixFold(s, p string) bool {
@@ -212,7 +221,8 @@ func checkFormat(c FormatCase) evid.Outcome {
 	if c.UseConst {
 		got, err = safehtml.VerifTrustedResourceURLFormatFromConstant(format, args)
 	} else {
-		got, err = safehtml.TrustedResourceURLFormatFromFlag(strFlag(format), args)
+		sharedFlag.Set(format)
+		got, err = safehtml.TrustedResourceURLFormatFromFlag(sharedFlag, args)
 	}
 	pieces := scan(format)
 	okPrefix, pathStart := safePrefix(format)
